@@ -124,6 +124,23 @@ func ksCases() []ksCase {
 		`{"version":3,"crypto":{"cipher":"aes-128-ctr","kdf":"pbkdf2","kdfparams":{"prf":"hmac-sha256","dklen":32},"cipherparams":{"iv":"00"}}}`, "\x00\xff"} {
 		cs = append(cs, ksCase{name: "raw", raw: raw, passwd: "pw"})
 	}
+	// key files as other Web3-secret-storage tools write them: the scrypt kdf with its own parameters (n, r, p) — complete,
+	// with r or p zero or missing, with n not a power of two, huge — and unknown kdfs with arbitrary parameter objects
+	scryptFile := func(params string) string {
+		return `{"version":3,"id":"id","address":"addr","crypto":{"cipher":"aes-128-ctr","ciphertext":"` + strings.Repeat("ab", 32) +
+			`","cipherparams":{"iv":"` + strings.Repeat("0f", 16) + `"},"kdf":"scrypt","kdfparams":{` + params + `},"mac":"` + strings.Repeat("cd", 32) + `"}}`
+	}
+	salt := `"salt":"` + strings.Repeat("01", 32) + `"`
+	for _, params := range []string{
+		`"dklen":32,"n":1024,"r":8,"p":1,` + salt, `"dklen":32,"n":2,"r":1,"p":1,` + salt, `"dklen":32,"n":1024,` + salt, `"dklen":32,"n":1024,"r":8,` + salt,
+		`"dklen":32,"n":1024,"p":1,` + salt, `"dklen":32,"n":1024,"r":0,"p":1,` + salt, `"dklen":32,"n":1024,"r":8,"p":0,` + salt, `"dklen":32,"n":262144,"r":0,"p":0,` + salt,
+		`"dklen":32,"n":1000,"r":8,"p":1,` + salt, `"dklen":32,"n":0,"r":8,"p":1,` + salt, `"dklen":32,"n":-1024,"r":-8,"p":-1,` + salt,
+		`"dklen":32,"n":1024,"r":1073741824,"p":1073741824,` + salt, `"dklen":0,"n":1024,"r":8,"p":1,` + salt, `"dklen":32,"n":"1024","r":8,"p":1,` + salt, `"dklen":32,"n":1024,"r":8,"p":1`} {
+		cs = append(cs, ksCase{name: "raw", raw: scryptFile(params), passwd: "pw"})
+	}
+	for _, kdf := range []string{"argon2id", "bcrypt", "none"} {
+		cs = append(cs, ksCase{name: "raw", raw: strings.Replace(scryptFile(`"dklen":32,"m":65536,"t":0,"p":0,`+salt), `"kdf":"scrypt"`, `"kdf":"`+kdf+`"`, 1), passwd: "pw"})
+	}
 	return cs
 }
 
